@@ -28,7 +28,8 @@ MANIFEST = {
     "design": "§5 C18",
 }
 GEN = ["Quant"]
-RULE = ("shortest_int: multisets over small alphabets (heavy ties), dyadic grids finer than the 1e-10 tie tolerance, Gaussian/uniform "
+RULE = ("shortest_int: quantised codes in uint8/uint16/uint32/int8/int16/int32/int64 arrays (unsorted, sorted, descending), Python "
+        "lists and tuples, multisets over small alphabets (heavy ties), dyadic grids finer than the 1e-10 tie tolerance, Gaussian/uniform "
         "floats, every lag 0..n-1 via p=(k+1/2)*100/n and boundary percents (dyadic p with n*p/100 integral, 99.99); ADC: exact dyadic "
         "records with power-of-two range (codes compared exactly), Gaussian/uniform/sinusoidal/quantised records of length 2..2^17 "
         "(>= 10^4 so that 99.99% excludes outliers), n in 1..12, both otype values, ndarray and electrical_signal input, containers "
@@ -244,6 +245,58 @@ def gen_cases(rng, tier):
                 data = [float(v) / 4 for v in data]
             cases.append({"kind": "sint", "data": data, "p": rng.choice([p, float(p)]), "form": "float", "model": True,
                           "directed": "integral-lag"})
+    # directed: quantised codes stored in unsigned / narrow signed integer dtypes, handed to shortest_int directly,
+    # unsorted, already sorted, descending, and as Python lists (signed dtypes stay inside the span their own arithmetic holds)
+    ranges = {"uint8": [(0, 255), (0, 15), (100, 140)], "uint16": [(0, 65535), (0, 1023), (30000, 30100)],
+              "uint32": [(0, 2 ** 32 - 1), (0, 4095)], "int8": [(-60, 60), (0, 100)], "int16": [(-16000, 16000), (-100, 100)],
+              "int32": [(-10 ** 9, 10 ** 9), (-500, 500)], "int64": [(-10 ** 12, 10 ** 12)]}
+    kk = 0
+    for dt, rl in ranges.items():
+        for (lo, hi) in rl:
+            for order in ["random", "random", "sorted", "descending"]:
+                for rep in range(1 if not thorough else 6):
+                    kk += 1
+                    n = rng.choice([2, 3, 5, 8, 16, 50, 200])
+                    levels = rng.choice([2, 4, 8, 64]) if kk % 3 else None          # few levels: heavy ties
+                    if levels:
+                        grid = [lo + (hi - lo) * j // (levels - 1) for j in range(levels)]
+                        data = [rng.choice(grid) for _ in range(n)]
+                    else:
+                        data = [rng.randint(lo, hi) for _ in range(n)]
+                    if rng.random() < 0.5:
+                        data[rng.randrange(n)] = lo
+                        data[rng.randrange(n)] = hi
+                    if order == "sorted":
+                        data.sort()
+                    elif order == "descending":
+                        data.sort(reverse=True)
+                    lagk = rng.randrange(n)
+                    pp = (lagk + 0.5) * 100 / n if kk % 4 else rng.choice([50, 25, 75.0, 10, 90])
+                    cases.append({"kind": "sint", "data": data, "p": pp, "form": "dtype", "dtype": dt, "model": safe_p(n, pp),
+                                  "directed": "int-dtype-" + order})
+    # wide signed records: the span exceeds the dtype's own range (differences wrapped before /repo 8caea4c)
+    for dt, data, pp in [("int8", [-128, 0, 27, 100], 50), ("int16", [-30000, 0, 10000, 20000], 50),
+                         ("int8", [27, -128, 100, 0], 50)]:
+        cases.append({"kind": "sint", "data": data, "p": pp, "form": "dtype", "dtype": dt, "model": True,
+                      "directed": "int-dtype-wide"})
+    for dt, lo, hi in [("int8", -128, 127), ("int16", -32768, 32767), ("int16", -30000, 30000), ("int32", -2 ** 31, 2 ** 31 - 1)]:
+        for rep in range(4 if not thorough else 30):
+            n = rng.choice([4, 6, 10, 40, 150])
+            data = [rng.randint(lo, hi) for _ in range(n)] if rep % 2 else [rng.choice([lo, lo // 2, 0, hi // 3, hi]) for _ in range(n)]
+            lagk = rng.randrange(n)
+            cases.append({"kind": "sint", "data": data, "p": (lagk + 0.5) * 100 / n, "form": "dtype", "dtype": dt, "model": True,
+                          "directed": "int-dtype-wide"})
+    for order in ["sorted", "descending", "random"]:      # Python lists and tuples of ints / floats
+        for rep in range(3 if not thorough else 20):
+            n = rng.choice([3, 6, 20, 100])
+            data = [rng.randint(0, 9) for _ in range(n)] if rep % 2 else [rng.randint(-40, 40) / 4 for _ in range(n)]
+            if order == "sorted":
+                data.sort()
+            elif order == "descending":
+                data.sort(reverse=True)
+            lagk = rng.randrange(n)
+            cases.append({"kind": "sint", "data": data, "p": (lagk + 0.5) * 100 / n, "form": ["pylist", "pytuple"][rep % 2],
+                          "model": True, "directed": "container-" + order})
     for data, p in [([0, 0, 0, 5, 6, 7, 9, 9, 9], 25), ([3, 1, 2], 50), ([1.0, 2.0], 10), ([1, 2, 3], 50), ([5], 50), ([5], 99.99),
                     ([1, 1, 1, 1], 50), ([0, 0, 0, 5, 6, 7, 9, 9, 9], 50), ([0, 1, 1, 2, 5, 5, 6, 9], 25),
                     ([0, 2, 2, 4, 4, 6, 6, 8], 12.5), ([0, 0, 1, 1, 2, 2], 37.5)]:
@@ -381,13 +434,19 @@ def run_impl(case):
             if case["kind"] == "sint":
                 from opticomlib.utils import shortest_int
                 data = case["data"]
-                if case["form"] == "int" and all(float(v).is_integer() for v in data):
+                if case["form"] == "dtype":
+                    arg = np.array([int(v) for v in data], dtype=case["dtype"])
+                elif case["form"] == "pylist":
+                    arg = [int(v) if float(v).is_integer() else float(v) for v in data]
+                elif case["form"] == "pytuple":
+                    arg = tuple(int(v) if float(v).is_integer() else float(v) for v in data)
+                elif case["form"] == "int" and all(float(v).is_integer() for v in data):
                     arg = np.array([int(v) for v in data], dtype=np.int64)
                 elif case["form"] == "list" and len(data) > 0:
                     arg = [float(v) for v in data]
                 else:
                     arg = np.array([float(v) for v in data], dtype=float)
-                before = None if isinstance(arg, list) else arg.copy()
+                before = None if isinstance(arg, (list, tuple)) else arg.copy()
                 with time_limit(30):
                     out = shortest_int(arg, case["p"])
                 res.update(status="ok", lo=float(out[0]), hi=float(out[1]), n_out=int(np.size(out)))
@@ -501,16 +560,25 @@ def compare(case, res, reqs, replies):
     top = 2 ** case["n"] - 1
     step = (vmax - vmin) / top
     xs = None
+    tolv = _tol(float(vmax - vmin), max(abs(float(vmin)), abs(float(vmax))))
     for i in range(n):
-        m = Fraction(vals[i])
         o = res["out"][i]
+        tk = vals[i]
         if not _finite(o):
-            bad.append(f"sample {i}: model {float(m)!r}, implementation {o!r} (not finite)")
+            bad.append(f"sample {i}: model {tk}, implementation {o!r} (not finite)")
             break
         if case["otype"] == "n":
+            if "/" not in tk and int(tk) == o:           # fast path: integer code, equal
+                continue
+            m = Fraction(tk)
             ok = (m == Fraction(o))
         else:
-            ok = abs(float(m) - o) <= _tol(float(vmax - vmin), max(abs(float(vmin)), abs(float(vmax))))
+            a, _, b = tk.partition("/")
+            mf = int(a) / int(b) if b else float(int(a))  # int/int is correctly rounded = float(Fraction)
+            if abs(mf - o) <= tolv:
+                continue
+            m = Fraction(tk)
+            ok = False
         if not ok and not case["exact"]:
             # a half-step tie decided differently by float rounding of (s-Vmin)/(Vmax-Vmin)*(2^n-1)?
             if xs is None:
@@ -531,35 +599,39 @@ def compare(case, res, reqs, replies):
 # ---------------------------------------------------------------------------------------------------------------
 
 def _sint_oracle(data, p, lo, hi, tag):
-    """the statement of shortest_int on exact rationals; returns list of (sig, msg)"""
+    """the statement of shortest_int, exactly; returns list of (sig, msg).
+    Floats are exact values: ordering and equality are decided on the floats themselves, only the widths
+    (differences) are formed as exact rationals."""
     v = []
     if not _finite(lo, hi):
         return [(f"C18:{tag}:non-finite", f"returned ({lo!r},{hi!r})")]
-    s = sorted(Fraction(float(x)) for x in data)
+    s = sorted(float(x) for x in data)
     n = len(s)
-    lo, hi = Fraction(lo), Fraction(hi)
+    lo, hi = float(lo), float(hi)
     if not lo <= hi:
-        v.append((f"C18:{tag}:order", f"lo={float(lo)!r} > hi={float(hi)!r}"))
+        v.append((f"C18:{tag}:order", f"lo={lo!r} > hi={hi!r}"))
     lags = {k for k in lag_candidates(n, p) if k < n}
     if not lags:
         return v
-    slack = TIE_TOL + Fraction(max(abs(float(s[0])), abs(float(s[-1])), 0.0)) * Fraction(4, 2 ** 52)
+    slack = TIE_TOL + Fraction(max(abs(s[0]), abs(s[-1]), 0.0)) * Fraction(4, 2 ** 52)
+    width = Fraction(hi) - Fraction(lo)
     reports = []
     primary = math.floor(Fraction(n) * dec_frac(p) / 100)
     for lag in sorted(lags, key=lambda k: (k != primary, k)):   # more than one candidate only when n*p/100 is (nearly) an integer
         w = []
         if not any(s[i] == lo and s[i + lag] == hi for i in range(n - lag)):
             w.append((f"C18:{tag}:order-statistics",
-                      f"({float(lo)!r},{float(hi)!r}) are not two order statistics {lag} apart (n={n}, p={p!r})"))
+                      f"({lo!r},{hi!r}) are not two order statistics {lag} apart (n={n}, p={p!r})"))
         else:
             inside = sum(1 for x in s if lo <= x <= hi)
             if not inside >= lag + 1:
-                w.append((f"C18:{tag}:covers", f"[{float(lo)!r},{float(hi)!r}] holds {inside} samples, lag+1 = {lag + 1}"))
-            best = min(s[j + lag] - s[j] for j in range(n - lag))
-            if not (hi - lo) - best < slack:
-                j = min(range(n - lag), key=lambda j: s[j + lag] - s[j])
-                w.append((f"C18:{tag}:minimal", f"width {float(hi - lo)!r} but order statistics {j},{j + lag} "
-                                                 f"({float(s[j])!r},{float(s[j + lag])!r}) are {float(best)!r} apart (n={n}, lag={lag})"))
+                w.append((f"C18:{tag}:covers", f"[{lo!r},{hi!r}] holds {inside} samples, lag+1 = {lag + 1}"))
+            widths = [Fraction(s[j + lag]) - Fraction(s[j]) for j in range(n - lag)]
+            best = min(widths)
+            if not width - best < slack:
+                j = widths.index(best)
+                w.append((f"C18:{tag}:minimal", f"width {float(width)!r} but order statistics {j},{j + lag} "
+                                                 f"({s[j]!r},{s[j + lag]!r}) are {float(best)!r} apart (n={n}, lag={lag})"))
         if not w:
             return v
         reports.append(w)
@@ -616,7 +688,28 @@ def oracle(case, res):
     step = (Vmax - Vmin) / top
     # float clauses: relative to the full-scale span (plus 8 ulp of the values' magnitude) - no absolute floor
     eps = Fraction(_tol(vmax - vmin, max(abs(vmin), abs(vmax))))
-    for i, (s, o) in enumerate(zip(xs, out)):
+    # float pre-filter: a sample is cleared without exact arithmetic when its float-evaluated clause holds with a margin
+    # larger than any rounding of the pre-filter itself (32 ulp of the magnitudes involved); all others are checked exactly
+    xa, oa = np.array(xs, dtype=float), np.array(out, dtype=float)
+    fstep = (vmax - vmin) / top
+    mag = max(abs(vmin), abs(vmax), float(np.max(np.abs(xa))), float(np.max(np.abs(oa)))) if ot == "v" else \
+        max(abs(vmin), abs(vmax), float(np.max(np.abs(xa))))
+    margin = 32 * EPS64 * mag + 32 * EPS64 * abs(fstep) * top
+    feps = float(eps)
+    with np.errstate(all="ignore"):
+        if ot == "n":
+            okc = (oa == np.round(oa)) & (oa >= 0) & (oa <= top)
+            val_f = vmin + oa * fstep
+        else:
+            okc = (oa >= vmin) & (oa <= vmax)
+            val_f = oa
+        inr = (xa >= vmin) & (xa <= vmax)
+        lowr = xa < vmin
+        cleared = okc & np.where(inr, np.abs(val_f - xa) + margin <= fstep / 2,
+                                 np.where(lowr, np.abs(val_f - vmin) + margin <= feps, np.abs(val_f - vmax) + margin <= feps))
+    for i in np.flatnonzero(~cleared):
+        i = int(i)
+        s, o = xs[i], out[i]
         S, O = Fraction(s), Fraction(o)
         if ot == "n":
             if O.denominator != 1 or not (0 <= O <= top):
@@ -662,11 +755,13 @@ def features(case, res):
     if k == "sint":
         n = len(case["data"])
         f.append("sint:n=" + ("0" if n == 0 else "1" if n == 1 else "2-9" if n < 10 else "10-99" if n < 100 else "100+"))
-        f.append("sint:form=" + case["form"])
+        f.append("sint:form=" + case["form"] + (":" + case["dtype"] if case.get("dtype") else ""))
+        if case.get("directed") and case["directed"] != "integral-lag":
+            f.append("sint:directed-" + case["directed"])
         f.append("sint:ties" if len(set(case["data"])) < n else "sint:distinct")
         if not case.get("model", True):
             f.append("sint:oracle-only")
-        if case.get("directed"):
+        if case.get("directed") == "integral-lag":
             f.append("sint:directed-integral-lag")
         if res["status"] == "ok":
             lags = lag_candidates(n, case["p"])
